@@ -60,6 +60,12 @@ func classifyBus(s busdrv.Script, rej busdrv.Rejection) (string, string) {
 		clause = "observability"
 	case "panich":
 		clause = "panic-handler"
+	case "append":
+		clause = "persist-append"
+	case "perss", "persd":
+		clause = "observability-persist"
+	case "perrh":
+		clause = "persist-error-report"
 	case "":
 		clause = "trace-ended-early"
 	}
